@@ -351,6 +351,8 @@ class BoolAbs:
             return all(rs) if isinstance(e.op, ast.And) else any(rs)
         if isinstance(e, ast.Constant):
             return bool(e.value)
+        if isinstance(e, ast.Call) and isinstance(e.func, ast.Name) and e.func.id == 'bool' and len(e.args) == 1 and not e.keywords:
+            return self.ev(e.args[0], val)
         if isinstance(e, ast.IfExp):
             t_, b_, o_ = self.ev(e.test, val), self.ev(e.body, val), self.ev(e.orelse, val)      # (all three are visited so that every atom gets its variable)
             return b_ if t_ else o_
